@@ -512,6 +512,8 @@ def parse_view_record(toks):
     if t.peek() == "SKIP":
         return None
     d = {"opd": [], "hk": {}}
+    while t.peek() is not None and t.peek().startswith("HKA"):
+        parse_hk(t, t.peek(), d["hk"])
     parse_hk(t, "HK0", d["hk"])
     while t.peek() == "OPD":
         t.s()
@@ -755,11 +757,12 @@ def judge_hooks(ctx, o, cc, r, hk, det, totals, akinds):
             totals[site] += ev
             if not viol:
                 continue
-            if tag == "HK0" and akinds is None:
+            if tag == "HK0":
                 ctx.inconc("harness built an index argument outside its bounds in %s (%s): %s" % (r.inst.name, r.line, site))
                 continue
-            if tag == "HK0":
-                key = "operand:%s:hook:%s" % (akinds, site)
+            if tag.startswith("HKA"):
+                kind = G.cfg_parse(r.inst.cfg)[int(tag[3:])].kind
+                key = "operand:%s:hook:%s" % (kind, site)
                 when = "while the operand was constructed / resized / filled"
             elif o.family == "view":
                 key = "%s:%s:%s:hook:%s" % (o.name, cc, "view" if tag == "HK1" else "eval", site)
